@@ -118,7 +118,7 @@ Definition fkind_of (name : string) : option fkind :=
   else if String.eqb name "Set" then Some FSet else if String.eqb name "Stack" then Some FStack else None.
 
 Definition to_val (m : mval) : option val :=
-  match m with MVal v => Some v | MArgV a => arg_val a | _ => None end.
+  match m with MVal v => Some v | MArgV a => arg_val a | MZ z => Some (VUint 0 z) | _ => None end.
 
 Definition of_out (o : out obj) : ev :=
   match o with Ret x => EV (MObj x) | Panic => EPanic | Hang => EHang end.
@@ -371,8 +371,10 @@ Definition mutate (c : mctx) (o : obj) (meth : string) (args : list mval) : ev :
   | _, _ => EStuck
   end.
 
+(* a Go uint held by a local is a number, whether it came from an argument or from a conversion *)
+Definition canon (m : mval) : mval := match m with MArgV (AUint z) => MZ z | x => x end.
 Definition of_ev (e : menv) (n : nat) (r : ev) : mres :=
-  match r with EV m => RNormal (lset e n m) | EPanic => RPanic | EHang => RHang | EStuck => RStuck end.
+  match r with EV m => RNormal (lset e n (canon m)) | EPanic => RPanic | EHang => RHang | EStuck => RStuck end.
 
 (* a loop: `break` leaves it *)
 Fixpoint fold_loop {X} (step : X -> menv -> mres) (xs : list X) (e : menv) : mres :=
